@@ -108,6 +108,21 @@ class AsmForms:
                                 continue
                             cid = "%s/%s/%s/%s%s" % (f, r or "-", sp or "-", m, "/equ" if via else "")
                             out.append({"id": cid, "form": f, "reg": r, "spelling": sp, "mnemonic": m, "via": via})
+        if tier != "thorough":
+            # the quick tier runs the full form x spelling matrix on one mnemonic per row class only; every OTHER row of the
+            # instruction table still gets each addressing mode once (one spelling, register X), so that a slip in a single
+            # row (a wrong opcode or size for one mnemonic in one mode) is seen on every change
+            reps = set(rows)
+            one = {"inh": None, "imm": "dec2", "mem<": "hex2", "mem>": "hex4", "ind[]": "hex4", "idx0": None, "idxc": "dec2", "[idxc]": "dec3",
+                   "inc2": None, "[idxD]": None}
+            for m in MACHINE:
+                if m in reps:
+                    continue
+                for f, sp in one.items():
+                    if m in ("PSHS", "PSHU", "PULS", "PULU", "TFR", "EXG") and f != "inh":
+                        continue
+                    r = "X" if "{R}" in FORMS[f][0] else None
+                    out.append({"id": "%s/%s/%s/%s" % (f, r or "-", sp or "-", m), "form": f, "reg": r, "spelling": sp, "mnemonic": m, "via": None})
         return out
 
     # ------------------------------------------------------------------
